@@ -484,7 +484,7 @@ func (t *treeRun) listFailureChecks() {
 	if err == nil {
 		detsim.Fail("list-failure-not-reported", "list#%d failed (%s), the controller stopped, but Error() is nil", t.failAt, srv.F.ListScript[t.failAt])
 	}
-	if srv.F.ListScript[t.failAt] == "error" && !strings.Contains(err.Error(), world.ErrInjectedList.Error()) {
+	if strings.HasPrefix(srv.F.ListScript[t.failAt], "error") && !strings.Contains(err.Error(), world.ErrInjectedList.Error()) {
 		detsim.Fail("list-failure-not-reported", "list#%d failed with %q but Error() = %q does not report the cause", t.failAt, world.ErrInjectedList.Error(), err.Error())
 	}
 	if t.failAt == 1 && detsim.IsClosed(h.Ctrl.Ready()) {
